@@ -26,18 +26,18 @@ class Undecided(Exception):
 class X:
     """extraction request"""
     def __init__(self, ident, header, anchor, nth=0, rules=(), members=(), count=None, within=None,
-                 common=True, kind='body'):
+                 common=True, kind='body', meminit=False):
         self.__dict__.update(locals())
         del self.__dict__['self']
 
-    def run(self):
+    def run(self, ppdefs=None):
         hdr = self.header if '/' in self.header else 'boost/gil/' + self.header
         if self.kind == 'expr':
             e = ex.extract_expr(self.ident, hdr, self.anchor, self.rules, self.members, self.within, self.common)
             e.inline = True
             return e
         return ex.extract(self.ident, hdr, self.anchor, self.nth, self.rules, self.members,
-                          self.count, self.within, self.common)
+                          self.count, self.within, self.common, ppdefs=ppdefs, meminit=self.meminit)
 
 
 class Check:
@@ -178,7 +178,8 @@ def instantiate(unit, inst, wd):
         if selname in sel and sel[selname] == '0':
             text = text.replace(hole, '{ __CPROVER_assert(0, "unselected candidate body reached"); }')
             continue
-        e = x.run()
+        ppdefs = {k: v == '1' for k, v in re.findall(r'#define\s+PPDEF_(\w+)\s+\(?(\d+)', bind)}
+        e = x.run(ppdefs)
         extracted.append(e)
         if hole not in text:
             raise Undecided('template of %s has no hole %s' % (unit.name, hole))
